@@ -19,7 +19,7 @@ def specs_for(ctx):
     rng = random.Random(ctx.seed + 16)
     specs = []
     limits = [0.5, 0.6, 0.7, 0.75, 0.8, 0.85, 0.88, 0.9, 0.92, 0.94, 0.96, 0.98, 1.0]
-    n = ctx.pick(110, 2500)
+    n = ctx.pick(110, 1200)
     for i in range(n):
         r = rng.random()
         if r < 0.25:
